@@ -31,6 +31,8 @@ func (c *Ctx) ReplaySym(files []string, nAssign int) error {
 		line []byte
 	}
 	jobs := make(chan job, 64)
+	sym.InstallGradMagSink()
+	defer sym.RemoveGradMagSink()
 	var wg sync.WaitGroup
 	var firstErr error
 	var emu sync.Mutex
@@ -123,6 +125,8 @@ func (c *Ctx) runSymCase(cs *sym.Case, idx, nAssign int) {
 
 // ReplaySymWitness re-executes a recorded witness (bin/check --replay).
 func ReplaySymWitness(w *SymWitness) sym.Result {
+	sym.InstallGradMagSink()
+	defer sym.RemoveGradMagSink()
 	return sym.Run(w.Case, w.Assign)
 }
 
